@@ -108,6 +108,19 @@ def b_macro_params(ch):
     if fault == 'too-many' and mn == 'rec':
         p = list(MACRO_OK[mn]) + [1.0]     # 11 entries: neither 10 nor 12
     st = one_surface('%s %s' % (mn, nums(p)), expr)
+    # the cell that uses the facet may be moved before it is converted (TRCL, or a universe placed by a FILL
+    # transformation): the facet is then looked up on another path
+    place = ch.choose('placement', ['plain', 'trcl', 'startrcl', 'fill-tr', 'fill-trnum'], free=True)
+    if place == 'trcl':
+        st.cells = ['1 0 %s trcl=(1 0 0) imp:n=1' % expr, '2 0 #1 imp:n=1']
+    elif place == 'startrcl':
+        st.cells = ['1 0 %s *trcl=(0 1 0 30 60 90 120 30 90 90 90 0) imp:n=1' % expr, '2 0 #1 imp:n=1']
+    elif place.startswith('fill'):
+        tr = '(1 0 0)' if place == 'fill-tr' else '(4)'
+        st.cells = ['1 0 %s u=1 imp:n=1' % expr, '3 0 #1 u=1 imp:n=1', '2 0 -9 fill=1 %s imp:n=1' % tr, '4 0 9 imp:n=0']
+        st.surfs.append('9 so 50')
+        if place == 'fill-trnum':
+            st.data = ['tr4 0 1 0 0 1 0 -1 0 0 0 0 1']
     st.fault = None if fault == 'none' else 'macro:%s' % fault
     st.site = mn
     return st
@@ -413,7 +426,10 @@ def check_state(scn, st):
                        msg='fault %s: error %s without a message' % (st.fault, r.exc_type), out='err:' + r.exc_type,
                        stats=stats)
     stats['error_types'] = {r.exc_type}
-    if r.exc_type in RAW_ERRORS:
+    # a built-in exception type that the interpreter raised underneath the converter (`KeyError: 77`) does not
+    # name the problem; the same type raised by the converter's own `raise` with a sentence of its own does
+    worded = bool(r.deliberate) and len((r.exc_msg or '').split()) >= 3
+    if r.exc_type in RAW_ERRORS and not worded:
         return verdict(False, st, cls={'kind': 'unnamed-error', 'fault': st.fault, 'exc': r.exc_type},
                        msg='fault %s at %s stops the run with a bare %s: %s (the problem is not named)\n%s'
                        % (st.fault, st.site, r.exc_type, r.exc_msg, st.deck_text), out='err:' + r.exc_type,
